@@ -14,7 +14,11 @@ reg("C20", "exploration", [
     P("fpcfg", "all", package="fpcfg", features="cfg_mm", name="cfg-mm"),
     P("fpcfg", "all", package="fpcfg", features="cfg_std", name="cfg-std"),
 ])
-reg("C12", "exploration", [P("tex", "all")])
+reg("C12", "exploration", [P("tex", "all"),
+    # the repeating sampler again in the float configurations whose floor / rem_euclid are not std's
+    P("fpcfg", "tex", package="fpcfg", features="cfg_none", name="tex-cfg-none"),
+    P("fpcfg", "tex", package="fpcfg", features="cfg_libm", name="tex-cfg-libm"),
+    P("fpcfg", "tex", package="fpcfg", features="cfg_mm", name="tex-cfg-mm")])
 reg("C15", "exploration", [P("solids", "all")])
 reg("C17", "exploration", [P("curve", "spline")])
 reg("C18", "exploration", [P("curve", "angle")])
